@@ -294,8 +294,13 @@ def gen_wellformed(r, i, specs):
         parts.append("<key %s/>" % " ".join(r.shuffle(ka)) + nl)
     if r.chance(1, 4):
         parts.append('<key id="c" for="node" attr.name="color"/>' + nl)
+    # optional GraphML parse hints (counts supplied by the document: never to be trusted)
+    hints = []
+    if r.chance(1, 6):
+        hints = [at(r.pick(["parse.nodes", "parse.edges", "parse.order", "parse.maxindegree"]),
+                    r.pick(["3", "0", "18446744073709551615", "2305843009213693952", "-1", "many", "nodesfirst"]))]
     parts.append("<graph %s>" % " ".join(r.shuffle([at("edgedefault", "directed" if directed else "undirected")] +
-                                                   ([at("id", "G")] if r.chance(1, 3) else []))) + nl)
+                                                   ([at("id", "G")] if r.chance(1, 3) else []) + hints)) + nl)
     exp_nodes, exp_edges = [], []
     items = [("n", n) for n in names]
     for _ in range(r.below(6)):
